@@ -120,6 +120,12 @@ def judge(case, res):
 
     rows = case["rows"]
     n = len(rows)
+    if res.get("thrown"):
+        # a non integer label is outside the domain of the property; what the code does then
+        # (exception, increments already made) is compared with the model, not judged
+        if res["frame"] != 1 or len(res["diff"]) != n:
+            return [(base + ":frame", "evaluation changed something else than the difficulty counters")]
+        return []
     if len(res["fit"]) != 1:
         return [(base + ":arity", "fitness has %d components" % len(res["fit"]))]
     f = unhx(res["fit"][0])
@@ -329,6 +335,13 @@ def gen_case_cls(rng, thorough):
         else:
             x = D(centres[lab] + rng.gauss(0, 1.5 if rng.random() < 0.8 else 0.0))
         rows.append([x, D(rng.gauss(0, 5)), "i:%d" % lab, gen_difficulty(rng)])
+    q = rng.random()
+    if q < 0.06:
+        # a label cell that is not an integer: label() throws std::bad_variant_access
+        rows[rng.randrange(n)][2] = rng.choice(["v", D(1.0), D(0.0)])
+    elif q < 0.10 and kind == "binary":
+        # negative / huge labels: converted to size_t, never equal to a tag (binary has no table to index)
+        rows[rng.randrange(n)][2] = "i:%d" % rng.choice([-1, -2, 2, 7, 2147483647, -2147483648])
     prog = "X"
     rp = rng.random()
     if rp < 0.08:
@@ -372,9 +385,14 @@ def fixed_cases():
     out.append({"kind": "binary", "classes": 2, "prog": "X",
                 "rows": [[D(1.0), D(0.0), "i:1", 0], [D(-1.0), D(0.0), "i:0", 4], [D(0.0), D(0.0), "i:1", 2 ** 64 - 1], ["v", D(0.0), "i:0", 9]]})
     for k in CLS_KINDS:
+        out.append({"kind": k, "classes": 2, "prog": "X",
+                    "rows": [[D(-1.0), D(0.0), "i:1", 3], [D(1.0), D(0.0), D(1.0), 5], [D(-1.0), D(0.0), "i:1", 7]]})
+        out.append({"kind": k, "classes": 2, "prog": "X", "rows": [[D(1.0), D(0.0), "v", 5]]})
         out.append({"kind": k, "classes": 2, "prog": "X", "rows": [[D(1.0), D(0.0), "i:1", 0]]})
         out.append({"kind": k, "classes": 2, "prog": "X", "rows": [[D(1.0), D(0.0), "i:1", 0], [D(-1.0), D(0.0), "i:0", 0]]})
         out.append({"kind": k, "classes": 2, "prog": "X", "rows": [[D(-1.0), D(0.0), "i:1", 0], [D(1.0), D(0.0), "i:0", 0]]})
+    out.append({"kind": "binary", "classes": 2, "prog": "X",
+                "rows": [[D(1.0), D(0.0), "i:-1", 0], [D(-1.0), D(0.0), "i:0", 4], [D(2.0), D(0.0), "i:2147483647", 1]]})
     return out
 
 
@@ -388,9 +406,9 @@ def harness_line(c):
 
 
 def parse_harness(line):
-    if line is None or not line.startswith("fit="):
+    if line is None or not (line.startswith("fit=") or line.startswith("THROW ")):
         return None
-    res = {"fit": [], "outs": [], "diff": [], "frame": 1, "tags": []}
+    res = {"fit": [], "outs": [], "diff": [], "frame": 1, "tags": [], "thrown": line.startswith("THROW "), "tags_thrown": False}
     for w in line.split():
         k, _, v = w.partition("=")
         if k == "fit":
@@ -402,7 +420,10 @@ def parse_harness(line):
         elif k == "frame":
             res["frame"] = int(v)
         elif k == "tags":
-            res["tags"] = [(int(t.split(":")[0]), t.split(":")[1]) for t in v.split(",")] if v else []
+            if v == "THROW":
+                res["tags_thrown"] = True
+            else:
+                res["tags"] = [(int(t.split(":")[0]), t.split(":")[1]) for t in v.split(",")] if v else []
     return res
 
 
@@ -411,9 +432,7 @@ def model_line(c, res):
         return harness_line(c)
     toks = []
     for i, r in enumerate(c["rows"]):
-        tg = "-"
-        if c["kind"] in ("dynslot", "gaussian"):
-            tg = "%d:%s" % res["tags"][i]
+        tg = "-"      # the model builds the classifier itself (C08's model)
         toks.append("%s %s %s %d %s %s" % (r[0], r[1], r[2], r[3], res["outs"][i], tg))
     return "%s %d %d %s" % (c["kind"], c["classes"], len(c["rows"]), " ".join(toks))
 
@@ -435,6 +454,8 @@ def nontrivial(c, res):
             if 2.0 ** -53 <= d <= 2.0 ** -50 or d > 1e150 or d != d or abs(o) > 1e150:
                 return True
         return False
+    if res.get("thrown"):
+        return True
     wrong = [res["tags"][i][0] != int(c["rows"][i][2][2:]) for i in range(n)]
     return any(wrong) and not all(wrong)
 
@@ -489,8 +510,11 @@ def run(ck):
     ck.assumptions += [
         "program outputs enter the model as an oracle  out : inputs -> void|int|double  (the interpreter is C01/C08); "
         "string-valued outputs are outside the model",
-        "dyn_slot / gaussian classifiers enter as an oracle  tag : inputs -> (label, sureness)  (their construction "
-        "uses libm atan/exp: C08); gaussian bounds assume 0 <= sureness <= 1 and 2 <= classes <= 2^53",
+        "dyn_slot / gaussian: the evaluator model builds the classifier with C08's executable model "
+        "(coq/Lambda/LambdaDefs.v) and counts the mismatches of that object's tag(); libm atan / exp are Section "
+        "variables (realised by glibc in the driver); the generic theorems also hold for any tag function",
+        "gaussian bounds assume H_libm (exp(NaN) is NaN, exp(x) in [0,1] for x <= 0), per-class variances NaN or >= 0 "
+        "(C08's open Welford gap) and 2 <= classes <= 2^53",
         "counting theorems assume fewer than 2^53 examples (beyond that `++err` on a double stops counting)",
         "the four Flocq/stdlib axioms come with Flocq's binary64 definitions"]
 
@@ -559,6 +583,10 @@ def run(ck):
             ck.nontriv(hlines[k])
         mo = mres[k]
         impl_canon = "fit=%s diff=%s" % (",".join(r["fit"]), ",".join(str(x) for x in r["diff"]))
+        if r["thrown"]:
+            impl_canon = "THROW diff=%s" % ",".join(str(x) for x in r["diff"])
+        elif c["kind"] in CLS_KINDS:
+            impl_canon += " tags=" + ",".join("%d:%s" % t for t in r["tags"])
         if c["kind"] in ("ga", "con"):
             impl_canon = "fit=%s" % ",".join(r["fit"])
         if k < 2 or k % (len(cases) // 4 + 1) == 0:
